@@ -731,7 +731,7 @@ def gen(seed, run, tier='quick'):
         operands = [p['s1'] for p in probes]
         for _ in range(hr.choice([0, 0, 2, 4])):
             if syms:
-                k = hr.randrange(14)
+                k = hr.randrange(15)
                 # mostly on operands of the probes; the allocating kinds
                 # mostly on operands of quantized types
                 pool_ = quantized if quantized and k in (4, 6, 7, 8, 9) \
@@ -914,6 +914,27 @@ def run_world(arg):
             elif k == 11:
                 sum([1 * u, 2 * u], 0 * u)
                 (5 * u) - (5 * u)
+            elif k == 14:
+                # exchange rates applied to quantities of types that are
+                # made of money (prices): an operation, not a declaration
+                from quantity.money import Money, ExchangeRate
+                cs = list(Money.units())[:3]
+                for q_unit in list(env.units.values())[-10:]:
+                    for a_ in cs:
+                        for b_ in cs:
+                            if a_ is b_:
+                                continue
+                            for fn in (
+                                    lambda: ExchangeRate(a_, 1, b_, 2) *
+                                    (2 * q_unit),
+                                    lambda: (2 * q_unit) *
+                                    ExchangeRate(a_, 1, b_, 2),
+                                    lambda: (2 * q_unit) /
+                                    ExchangeRate(a_, 1, b_, 2)):
+                                try:
+                                    fn()
+                                except Exception:   # noqa
+                                    pass
             elif k == 13:
                 # totals and halves computed from the kept operands with
                 # augmented assignments on other names
